@@ -37,6 +37,11 @@ pub fn braille_mathml(mathml: Element, nav_node_id: &str) -> Result<(String, usi
                         .chain_err(|| "Pattern match/replacement failure!")?;
         // debug!("braille_mathml: braille string: {}", &braille_string);
         let braille_string = braille_string.replace(' ', "");
+        #[cfg(mathcat_verif)]
+        if nav_node_id == verif::RAW_HOOK {
+            // verification hook: the rule output before the per-code clean-up
+            return Ok((braille_string, 0, 0));
+        }
         let pref_manager = rules_with_context.get_rules().pref_manager.borrow();
         let highlight_style = pref_manager.pref_to_string("BrailleNavHighlight");
         let braille_code = pref_manager.pref_to_string("BrailleCode");
@@ -2966,6 +2971,8 @@ pub mod verif {
     use super::*;
     /// a nav node id starting with this marker makes braille_mathml call its nested highlight_braille_chars directly
     pub const HIGHLIGHT_HOOK: &str = "\u{F8FF}verif-highlight:";
+    /// this nav node id makes braille_mathml return the rule output before the per-code clean-up
+    pub const RAW_HOOK: &str = "\u{F8FF}verif-raw";
 
     /// highlight_braille_chars(braille, code, fill_range) -> (braille, start, end)
     pub fn highlight_chars(braille: &str, braille_code: &str, fill_range: bool) -> Result<(String, usize, usize)> {
